@@ -209,7 +209,8 @@ def chan_facts(ctx):
         ks = [k_ for k_, _ in seq]
         if "blk" in ks:
             b = [e for k_, e in seq if k_ == "blk"][0]
-            if O.entails(ctx, p.pc, O.dz(b.ret.disc) == 0)[0]:
+            # the path on which the blocking send succeeded -- or on which its result is not inspected at all
+            if not O.entails(ctx, p.pc, O.dz(b.ret.disc) != 0)[0]:
                 blk = ks
     if blk is None:
         raise Unsupported("SyncSender::send: no blocking path")
@@ -333,6 +334,7 @@ def p_chan(ctx, tier):
                             sops.append(P.Op("q_send_blocking", val=mi + 1, cond=cnd))
                     else:
                         sops.append(P.Op("efd_write", val=vp, cond=cnd))
+        n_send_ops = len(sops)
         for fld in facts["drop_order_" + ("Sender" if cname == "unbounded" else "SyncSender")]:
             sops.append(P.Op("q_drop_sender") if fld == "sender" else P.Op("efd_write", val=vp))
         sender = P.Thread("sender", sops)
@@ -365,6 +367,13 @@ def p_chan(ctx, tier):
         sat, m = q(ex, sdone, quiescent, z3.Not(z3.Or(*closed)) if closed else z3.BoolVal(True), wend.qlen > 0)
         if sat:
             failing.append("message_left_queued_without_wakeup[%s]" % cname)
+            cex = cex or ("[%s]\n" % cname) + "\n".join(ex.schedule(m))
+        # (1b) the same while the sender handle is still alive (its drop would wake the loop, but may never come):
+        # all sends returned, the handle not dropped yet, the loop blocked in the poller, a message queued
+        sat, m = q(ex, ex.executed(0, n_send_ops - 1), z3.Not(ex.executed(0, n_send_ops)), rounds_left,
+                   ex.next_op_disabled(L, wend), wend.qlen > 0)
+        if sat:
+            failing.append("message_left_queued_while_sender_alive[%s]" % cname)
             cex = cex or ("[%s]\n" % cname) + "\n".join(ex.schedule(m))
         # (2) Closed exactly once after the last sender is gone
         sat, m = q(ex, sdone, quiescent, ncl != 1)
